@@ -35,6 +35,9 @@ INPUTS = {
     'fp-const': '(declare-const x (_ FloatingPoint 5 11))\n(assert (fp.isNaN x))\n',
     'fp-short': '(declare-const x Float32)\n(assert (fp.isNaN x))\n',
     'rm-const': '(declare-const m RoundingMode)\n(assert (= m RNE))\n',
+    'rm-fun-param': '(declare-fun c (RoundingMode) Bool)\n(assert (c RNE))\n',
+    'seq-fun-param': '(declare-fun c ((Seq Int)) Bool)\n(assert (c (as seq.empty (Seq Int))))\n',
+    'int-define-fun-param': '(define-fun c ((a Int)) Bool (> a 0))\n(assert (c 1))\n',
     'fp-fun-param': '(declare-fun c (Float16) Bool)\n(assert (c (_ NaN 5 11)))\n',
     'dt': '(declare-datatype T ((A) (B (s Bool))))\n(declare-const t T)\n(assert (= t A))\n',
     'dts': '(declare-datatypes ((L 0)) (((nil) (cons (hd Bool) (tl L)))))\n(assert (= nil nil))\n',
